@@ -68,17 +68,19 @@ func (m *Module) handleParticipantJoin(ctx context.Context, respond hwebsocket.R
 	// Only the actions of entities that are in the session: for a moment an
 	// entity that is going away with its owner is already out of the session
 	// while its actions are not released yet.
-	entityActions := make([]*vikjapb.EntityAction, 0)
-	for _, ea := range m.state.EntityActions() {
-		if _, ok := m.currentSession.EntityByID(ea.EntityId); ok {
-			entityActions = append(entityActions, ea)
+	m.currentSession.Exclusive(func([]*models.Participant) {
+		entityActions := make([]*vikjapb.EntityAction, 0)
+		for _, ea := range m.state.EntityActions() {
+			if _, ok := m.currentSession.EntityByID(ea.EntityId); ok {
+				entityActions = append(entityActions, ea)
+			}
 		}
-	}
 
-	respond.Send(&vikjapb.State{
-		Type:          vikjapb.MsgType_MSG_TYPE_VIKJA_STATE,
-		Timestamp:     timestamppb.Now(),
-		EntityActions: entityActions,
+		respond.Send(&vikjapb.State{
+			Type:          vikjapb.MsgType_MSG_TYPE_VIKJA_STATE,
+			Timestamp:     timestamppb.Now(),
+			EntityActions: entityActions,
+		})
 	})
 	return nil
 }
